@@ -11,11 +11,18 @@ import (
 	"fmt"
 	"math"
 	"os"
+	"os/exec"
 	"path/filepath"
+	"sort"
 	"strings"
 	"time"
 
+	jp "github.com/buger/jsonparser"
 	"github.com/klauspost/compress/zstd"
+	"github.com/siglens/siglens/pkg/config"
+	"github.com/siglens/siglens/pkg/segment/memory/limit"
+	sutils "github.com/siglens/siglens/pkg/segment/utils"
+	"github.com/siglens/siglens/pkg/segment/writer/metrics/meta"
 	"github.com/siglens/siglens/pkg/segment/structs"
 	"github.com/siglens/siglens/pkg/segment/writer/metrics"
 	"github.com/siglens/siglens/pkg/segment/writer/metrics/wal"
@@ -230,6 +237,10 @@ func genDP(r *vhlib.Rng) wal.WalDatapoint {
 func main() {
 	log.SetLevel(log.PanicLevel)
 	log.SetOutput(os.Stderr)
+	if len(os.Args) > 1 && os.Args[1] == "worker" {
+		walWorker(os.Args[2:])
+		return
+	}
 	cfg := vhlib.ParseFlags()
 	sum := vhlib.NewSummary("one case = one (log, mutation) pair; logs of 1-4 appended batches (datapoints from boundary pools and random bits, names, meta entries); " +
 		"mutations: every truncation length, single-byte modifications (quick: frame-header bytes + random positions; thorough: every position x 5 values), trailing garbage; " +
@@ -254,7 +265,117 @@ func main() {
 		}
 	}
 	walOrder(cfg, sum, dir)
+	walIngestCrash(cfg, sum, r.Fork())
 	sum.Write(cfg.Out)
+}
+
+// ---------- the writer side end to end: EncodeDatapoint -> appendToWALBuffer -> Append / rotateWAL, then a crash ----------
+// worker <dir> <n> <flushSize> <maxFileBytes>: ingest n datapoints of one series (timestamp base+i, value i) and die.
+func walWorker(args []string) {
+	dir := args[0]
+	var n, fs, mx int
+	fmt.Sscanf(args[1], "%d", &n)
+	fmt.Sscanf(args[2], "%d", &fs)
+	fmt.Sscanf(args[3], "%d", &mx)
+	sutils.WAL_BLOCK_FLUSH_SIZE = fs
+	sutils.MAX_WAL_FILE_SIZE_BYTES = uint64(mx)
+	c := config.GetTestConfig(dir + "/")
+	c.SSInstanceName = "test"
+	config.SetConfig(c)
+	if err := config.InitDerivedConfig("test"); err != nil {
+		os.Exit(3)
+	}
+	limit.InitMemoryLimiter()
+	metrics.InitTestingConfig()
+	if err := meta.InitMetricsMeta(); err != nil {
+		os.Exit(3)
+	}
+	for i := 0; i < n; i++ {
+		th := metrics.GetTagsHolder()
+		th.Insert("host", []byte("h1"), jp.String)
+		if err := metrics.EncodeDatapoint([]byte("walm"), th, float64(i), uint32(1700000000+i), 40, 0); err != nil {
+			os.Exit(4)
+		}
+	}
+	os.Exit(0) // abrupt end: nothing is flushed or rotated; only completed WAL appends are on disk
+}
+
+func walIngestCrash(cfg vhlib.Config, sum *vhlib.Summary, r *vhlib.Rng) {
+	self, _ := os.Executable()
+	type sc struct{ n, fs, mx int }
+	scs := []sc{{450, 100, 512}, {130, 50, 4096}, {1000, 50, 300}}
+	if cfg.Thorough() {
+		for i := 0; i < 12; i++ {
+			scs = append(scs, sc{r.Range(60, 2500), vhlib.Pick(r, []int{20, 50, 100}), vhlib.Pick(r, []int{200, 512, 2048, 100000})})
+		}
+	}
+	for si, c := range scs {
+		dir, _ := filepath.Abs(filepath.Join(cfg.Out, fmt.Sprintf("walcrash_%d", si)))
+		_ = os.MkdirAll(dir, 0o755)
+		cmd := exec.Command(self, "worker", dir, fmt.Sprint(c.n), fmt.Sprint(c.fs), fmt.Sprint(c.mx))
+		if out, err := cmd.CombinedOutput(); err != nil {
+			sum.HarnessError(fmt.Sprintf("wal worker: %v %s", err, string(out)))
+			continue
+		}
+		// the WAL directory of the host
+		var walDir string
+		_ = filepath.Walk(dir, func(p string, info os.FileInfo, err error) error {
+			if err == nil && info.IsDir() && filepath.Base(p) == "wal-ts" {
+				walDir = p
+			}
+			return nil
+		})
+		if walDir == "" {
+			sum.HarnessError("no wal-ts directory after ingest")
+			continue
+		}
+		groups, err := metrics.VerifExtractWALFileInfo(walDir)
+		if err != nil {
+			sum.HarnessError("extractWALFileInfo: " + err.Error())
+			continue
+		}
+		var keys []string
+		for k := range groups {
+			keys = append(keys, k)
+		}
+		sort.Strings(keys)
+		var replay []wal.WalDatapoint
+		nfiles := 0
+		for _, k := range keys {
+			for _, fn := range groups[k] {
+				nfiles++
+				got, _ := readDP(filepath.Join(walDir, fn))
+				replay = append(replay, got...)
+			}
+		}
+		sum.Eval(fmt.Sprintf("walcrash/%d", si), true)
+		sum.Count("walcrash/histories")
+		sum.Count(fmt.Sprintf("walcrash/files=%d", nfiles))
+		// completed appends: every full buffer of fs datapoints was appended before the next datapoint was accepted
+		// (the 1 s timer may have appended more): replay must be a PREFIX of the ingested sequence of at least that length
+		minLen := ((c.n - 1) / c.fs) * c.fs
+		ok := len(replay) >= minLen && len(replay) <= c.n
+		for i := 0; ok && i < len(replay); i++ {
+			ok = replay[i].Timestamp == uint32(1700000000+i) && replay[i].DpVal == float64(i)
+		}
+		cs := map[string]interface{}{"datapoints": c.n, "wal_block_flush_size": c.fs, "max_wal_file_bytes": c.mx, "wal_files": nfiles, "replayed": len(replay)}
+		if !ok {
+			first := -1
+			for i := range replay {
+				if replay[i].Timestamp != uint32(1700000000+i) {
+					first = i
+					break
+				}
+			}
+			cls := "wal_restart_replay_not_completed_prefix"
+			if nfiles >= 11 && first >= 0 {
+				cls = "wal_files_replayed_in_lexicographic_order"
+			}
+			sum.Fail(cls, fmt.Sprintf("%d datapoints ingested (buffer %d, file limit %d bytes -> %d WAL files), process ended; replaying the files as RecoverWALData does yields %d datapoints, first deviation at position %d; at least the first %d (completed appends) must come back in order",
+				c.n, c.fs, c.mx, nfiles, len(replay), first, minLen), cs)
+		}
+		sum.Sample(cs)
+	}
 }
 
 // order in which RecoverWALData replays the WAL files of one block (extractWALFileInfo, through a verif hook)
